@@ -654,7 +654,7 @@ func (g *bridgeGen) plan(mode string) (*BlockPlan, error) {
 		ntx = 2
 	}
 	for k := 0; k < ntx; k++ {
-		x := r.Intn(20)
+		x := r.Intn(22)
 		if nearCb && k == 0 {
 			x = 10 // present the coinbase deposit at every height around its maturity
 		}
@@ -827,6 +827,49 @@ func (g *bridgeGen) plan(mode string) (*BlockPlan, error) {
 				continue
 			}
 			if err := add(m, "finalize", f); err != nil {
+				return nil, err
+			}
+		case x >= 20: // consolidation: a voted transaction with exactly one output, paying the current relayer key
+			if votedUsed {
+				continue
+			}
+			cur := g.curKey()
+			payTo, payCur := cur, true
+			if rare(5) && len(g.keys) > 1 { // an older / other registered key
+				payTo = g.keys[r.Intn(len(g.keys))]
+				payCur = project.KeyID(payTo.Pub) == project.KeyID(cur.Pub)
+			}
+			sc := btc.SystemScript(payTo.Pub)
+			if rare(8) { // right hash under the other witness version / a truncated program
+				sc = append([]byte{}, sc...)
+				if rare(2) {
+					sc[0] ^= txscript.OP_0 ^ txscript.OP_1
+				} else {
+					sc = sc[:len(sc)-1]
+					sc[1]--
+				}
+				payCur = false
+			}
+			outs := []btc.Out{{Value: int64(20000 + r.Intn(500000)), Script: sc}}
+			if rare(5) { // a second output (also to the current key): not a consolidation
+				outs = append(outs, btc.Out{Value: 1234, Script: btc.SystemScript(cur.Pub)})
+			}
+			if rare(12) { // no output at all
+				outs = nil
+			}
+			raw, _ := btc.Tx(r, outs, r.Intn(40))
+			parseOk := true
+			if rare(10) { // trailing bytes after the transaction
+				raw = append(append([]byte{}, raw...), byte(r.Intn(256)))
+				parseOk = false
+			}
+			m := &bitcointypes.MsgNewConsolidation{Proposer: s.member(vc.Proposer).Bech, NoWitnessTx: raw}
+			vt, ok := s.fullVote(vc, "NewConsolidation", m.VoteSigDoc(), rare(8))
+			m.Vote = vt
+			if ok && parseOk && len(outs) == 1 && payCur {
+				votedUsed = true
+			}
+			if err := add(m, "consolidation", Ev{"wf": true, "parseOk": parseOk, "nOuts": len(outs), "payCur": payCur && len(outs) > 0, "voteOk": ok}); err != nil {
 				return nil, err
 			}
 		default: // approve cancellation
